@@ -447,6 +447,28 @@ pub fn mutations(case: &Case, parts: &Parts, other: Option<&Parts>, density: usi
             pushm(&mut v, format!("proof.{name} -> {}", ["+1", "negated", "zero", "random"][how % 4]), Alter::Proof(p));
         }
     }
+    // --- the same scalar in a non-canonical encoding (s + l as a 256-bit integer): another byte string, same value
+    {
+        const L_LE: [u8; 32] = [0xed, 0xd3, 0xf5, 0x5c, 0x1a, 0x63, 0x12, 0x58, 0xd6, 0x9c, 0xf7, 0xa2, 0xde, 0xf9, 0xde, 0x14, 0, 0, 0, 0, 0, 0, 0, 0, 0, 0, 0, 0, 0, 0, 0, 0x10];
+        let pos = rot % n_sc;
+        let mut p = parts.clone();
+        let (name, slot): (String, &mut [u8; 32]) = match pos {
+            0 => ("r1".into(), &mut p.r1),
+            1 => ("s1".into(), &mut p.s1),
+            k => (format!("d1[{}]", k - 2), &mut p.d1[k - 2]),
+        };
+        let mut carry = 0u16;
+        let mut out = [0u8; 32];
+        for i in 0..32 {
+            let t = slot[i] as u16 + L_LE[i] as u16 + carry;
+            out[i] = t as u8;
+            carry = t >> 8;
+        }
+        if carry == 0 {
+            *slot = out;
+            pushm(&mut v, format!("proof.{name} -> non-canonical encoding of the same scalar (+ group order)"), Alter::Proof(p));
+        }
+    }
     // --- points: A, A1, B, each L_j, R_j
     let n_pt = 3 + 2 * parts.lr.len();
     for pos in 0..n_pt {
@@ -563,6 +585,14 @@ pub fn mutations(case: &Case, parts: &Parts, other: Option<&Parts>, density: usi
             let mut p = parts.clone();
             p.lr.pop();
             pushm(&mut v, "proof rounds - 1".into(), Alter::Proof(p));
+        }
+    }
+    // degree tag with reserved high bits set (same low bits)
+    for hi in [0x10u8, 0x80, 0xF0, 0x08] {
+        let mut p = parts.clone();
+        p.ext_byte = parts.ext_byte | hi;
+        if p.ext_byte != parts.ext_byte && (density >= 2 || hi == [0x10u8, 0x80, 0xF0, 0x08][rot % 4]) {
+            pushm(&mut v, format!("proof degree tag {} -> {:#04x} (high bits set)", parts.ext_byte, p.ext_byte), Alter::Proof(p));
         }
     }
     // degree byte (bytes re-interpreted) and d1 length
